@@ -33,6 +33,8 @@ type c08pw struct {
 	truth  *string // the password that matches; nil = none
 	any    bool    // wildcard: everything matches
 	broken bool    // malformed record: login must be refused
+	bcrypt bool
+	pbkdf2 bool
 }
 
 var bcryptPool = map[string]string{}
@@ -52,7 +54,7 @@ func genPassword(t *rapid.T, label string) c08pw {
 		salt := rapid.SliceOfN(rapid.Byte(), 0, 32).Draw(t, label+"salt")
 		key := pbkdf2.Key([]byte(pw), salt, it, kl, sha256.New)
 		return c08pw{json: map[string]any{"type": "pbkdf2", "hash": "sha-256", "key": hex.EncodeToString(key),
-			"salt": hex.EncodeToString(salt), "iterations": it}, truth: &pw}
+			"salt": hex.EncodeToString(salt), "iterations": it}, truth: &pw, pbkdf2: true}
 	case "bcrypt":
 		bcryptOnce.Do(func() {
 			for _, p := range pws {
@@ -63,7 +65,7 @@ func genPassword(t *rapid.T, label string) c08pw {
 				bcryptPool[p] = string(h)
 			}
 		})
-		return c08pw{json: map[string]any{"type": "bcrypt", "key": bcryptPool[pw]}, truth: &pw}
+		return c08pw{json: map[string]any{"type": "bcrypt", "key": bcryptPool[pw]}, truth: &pw, bcrypt: true}
 	case "wildcard":
 		return c08pw{json: map[string]any{"type": "wildcard"}, any: true}
 	case "empty":
@@ -210,6 +212,7 @@ func TestVerif_C08_DecisionProcedure(t *testing.T) {
 			uname = &n
 		}
 		var pw string
+		exclBcrypt := false
 		var target *entry
 		if uname != nil {
 			if e, ok := users[*uname]; ok {
@@ -220,8 +223,29 @@ func TestVerif_C08_DecisionProcedure(t *testing.T) {
 		}
 		if target != nil && target.pw.truth != nil && rapid.IntRange(0, 2).Draw(t, "rightpw") != 0 {
 			pw = *target.pw.truth
+		} else if target != nil && target.pw.truth != nil && rapid.Bool().Draw(t, "nearMiss") {
+			// near misses derived from the right password: padded, truncated, extended, re-cased, same length
+			tr := *target.pw.truth
+			miss := []string{tr + "\x00", tr + "\x00\x00\x00", "\x00" + tr, tr + " ", tr + "x", strings.ToUpper(tr), strings.Repeat("\x00", len(tr)), strings.Repeat("\x00", len(tr)+1), tr + tr}
+			if len(tr) > 0 {
+				miss = append(miss, tr[:len(tr)-1], tr[1:], tr[:len(tr)-1]+"\x00", tr[:len(tr)-1]+string(tr[len(tr)-1]^1))
+			}
+			pw = rapid.SampledFrom(miss).Draw(t, "miss")
 		} else {
 			pw = rapid.SampledFrom([]string{"", "wrong", "secret", "a", "Secret", "secret "}).Draw(t, "pw")
+		}
+		// known finding C08:hashed-password-nul-equivalence: bcrypt keys are NUL-terminated and cycled, so P, P\0P, P\0P\0P ... (and
+		// "" and any run of NULs) are one key; HMAC (PBKDF2) pads short keys with NULs, so P and P\0 are one key; such presented
+		// passwords are not generated against hashed records while the finding is listed (counted), and attributed to it otherwise
+		knownTag := ""
+		if target != nil && target.pw.truth != nil && pw != *target.pw.truth &&
+			((target.pw.bcrypt && bcryptSameKey(pw, *target.pw.truth)) || (target.pw.pbkdf2 && hmacSameKey(pw, *target.pw.truth))) {
+			if knownHashNul {
+				pw = "wrong"
+				exclBcrypt = true
+			} else {
+				knownTag = " [known:C08:hashed-password-nul-equivalence]"
+			}
 		}
 		matches := func(e *entry) bool {
 			if e == nil || e.pw.broken {
@@ -262,9 +286,10 @@ func TestVerif_C08_DecisionProcedure(t *testing.T) {
 				t.Fatalf("login %q granted %v, configured rights are %v (allow-recording=%v unrestricted-tokens=%v)\n%s", *uname, gotPerms, want, allowRec, unres, b)
 			}
 		} else if err == nil {
-			t.Fatalf("login %v/%q must be refused, but was granted %v\n%s", strp(uname), pw, gotPerms, b)
+			t.Fatalf("login %v/%q must be refused, but was granted %v%s\n%s", strp(uname), pw, gotPerms, knownTag, b)
 		}
 		c08Rec.Case(boundary, string(b)+"|"+strp(uname)+"|"+pw, map[string]any{"description": json.RawMessage(b), "username": strp(uname), "password": pw, "accepted": accept, "granted": want})
+		c08Rec.ClassIf(exclBcrypt, "excluded_known_nul_equivalent_password_for_hashed_record")
 		c08Rec.ClassIf(accept, "accepted")
 		c08Rec.ClassIf(!accept, "refused")
 		c08Rec.ClassIf(target != nil && target == wild && wild != nil, "decided_by_wildcard_user")
@@ -272,6 +297,54 @@ func TestVerif_C08_DecisionProcedure(t *testing.T) {
 		c08Rec.ClassIf(target != nil && target.pw.json == nil, "empty_password_record")
 		c08Rec.ClassIf(boundary, "entry_shadows_wildcard_boundary")
 	})
+}
+
+var knownHashNul = verifkit.KnownActive("C08:hashed-password-nul-equivalence")
+
+// bcryptSameKey: do a and b expand to the same 72-byte Blowfish key (NUL-terminated, cycled)?
+func bcryptSameKey(a, b string) bool {
+	exp := func(p string) string {
+		k := p + "\x00"
+		var sb strings.Builder
+		for sb.Len() < 72 {
+			sb.WriteString(k)
+		}
+		return sb.String()[:72]
+	}
+	return exp(a) == exp(b)
+}
+
+// hmacSameKey: do a and b give the same HMAC key (keys shorter than the block are padded with NULs)?
+func hmacSameKey(a, b string) bool {
+	return len(a) <= 64 && len(b) <= 64 && strings.TrimRight(a, "\x00") == strings.TrimRight(b, "\x00")
+}
+
+// Probe for the known finding C08:hashed-password-nul-equivalence (fails while it is present).
+func TestVerif_C08_Known_HashedPasswordNulEquivalence(t *testing.T) {
+	h, err := bcrypt.GenerateFromPassword([]byte("pw"), bcrypt.MinCost)
+	if err != nil {
+		t.Skip(err)
+	}
+	var d Description
+	b, _ := json.Marshal(map[string]any{"users": map[string]any{"u": map[string]any{"password": map[string]any{"type": "bcrypt", "key": string(h)}, "permissions": "present"}}})
+	if err := json.Unmarshal(b, &d); err != nil {
+		t.Skip(err)
+	}
+	u := "u"
+	if _, _, err := d.GetPermission("g", ClientCredentials{Username: &u, Password: "pw\x00pw"}); err == nil {
+		t.Fatalf("the password \"pw\\x00pw\" is accepted for a bcrypt record made from \"pw\"")
+	}
+	salt := []byte("salt")
+	key := pbkdf2.Key([]byte("pw"), salt, 4, 32, sha256.New)
+	b, _ = json.Marshal(map[string]any{"users": map[string]any{"u": map[string]any{"password": map[string]any{"type": "pbkdf2", "hash": "sha-256",
+		"key": hex.EncodeToString(key), "salt": hex.EncodeToString(salt), "iterations": 4}, "permissions": "present"}}})
+	var d2 Description
+	if err := json.Unmarshal(b, &d2); err != nil {
+		t.Skip(err)
+	}
+	if _, _, err := d2.GetPermission("g", ClientCredentials{Username: &u, Password: "pw\x00"}); err == nil {
+		t.Fatalf("the password \"pw\\x00\" is accepted for a pbkdf2 record made from \"pw\"")
+	}
 }
 
 func strp(s *string) string {
